@@ -16,6 +16,10 @@ META = {
                    "C01-R6). 'Resumes as from a fresh start' inherits C06's limit and is not decided."),
 }
 
+# --- additions to the level description (rules added after the first version)
+META['level_text'] += ' R5: release_all itself runs its loop over a snapshot of all held input keys to exhaustion on every return path (shared with C06-R1).'
+# --- end additions
+
 
 def run(ctx):
     ck = ctx.check
